@@ -52,17 +52,24 @@ pub struct FutCfg {
     pub policy: Policy,
     pub plan: Vec<Stall>,
     pub seed: u64,
+    /// per stream: the receiver went through into_single -> into_multi (and back to single if uni)
+    /// before traffic, so the handles in use are *converted* ones
+    pub roundtrip: Vec<bool>,
+    /// consumers that leave (PollDrop / DirectDrop) wait for each other and drop at the same instant
+    pub sync_drop: bool,
 }
 
 impl FutCfg {
     pub fn describe(&self) -> String {
         format!(
-            "fut {} cap={} spins={:?} sinks(values,drop)={:?} streams={:?} policy={} plan=[{}]",
+            "fut {} cap={} spins={:?} sinks(values,drop)={:?} streams={:?} converted={:?} sync_drop={} policy={} plan=[{}]",
             self.fl.name(),
             self.cap,
             self.spins,
             self.sinks,
             self.streams,
+            self.roundtrip,
+            self.sync_drop,
             self.policy.name(),
             self.plan.iter().map(|s| s.show()).collect::<Vec<_>>().join(", ")
         )
@@ -89,6 +96,10 @@ struct Shared {
     is_task: Vec<AtomicBool>,
     /// verdicts of probe polls, recorded by the supervisor only after it has re-validated quiescence
     pending: std::sync::Mutex<Vec<(&'static str, String, String)>>,
+    /// leaving consumers that have reached their quota / how many there are (simultaneous drop)
+    leavers_ready: AtomicU32,
+    leavers_total: u32,
+    receivers_alive: AtomicU32,
 }
 
 pub fn gen_cfg(rng: &mut Rng, small: bool) -> FutCfg {
@@ -175,6 +186,7 @@ pub fn gen_cfg(rng: &mut Rng, small: bool) -> FutCfg {
             });
         }
     }
+    let roundtrip: Vec<bool> = streams.iter().map(|_| rng.chance(1, 3)).collect();
     FutCfg {
         fl,
         cap,
@@ -184,6 +196,8 @@ pub fn gen_cfg(rng: &mut Rng, small: bool) -> FutCfg {
         policy,
         plan,
         seed: rng.next(),
+        roundtrip,
+        sync_drop: rng.chance(1, 2),
     }
 }
 
@@ -342,6 +356,7 @@ fn stream_thread(mut rx: RxH, mode: StreamMode, sh: &Shared, tid: usize, cfg: &F
         }
         sh.state[tid].store(RUNNING, SeqCst);
         rx.drop_rx();
+        sh.receivers_alive.fetch_sub(1, SeqCst);
         sh.state[tid].store(DONE, SeqCst);
         return;
     }
@@ -432,10 +447,26 @@ fn stream_thread(mut rx: RxH, mode: StreamMode, sh: &Shared, tid: usize, cfg: &F
             }
         }
         rx.drop_rx();
+        sh.receivers_alive.fetch_sub(1, SeqCst);
         return;
     }
     sh.state[tid].store(RUNNING, SeqCst);
+    if quota.is_some() && sh.leavers_total > 1 {
+        // leave together with the other leaving consumers (bounded wait: they may never get there)
+        sh.leavers_ready.fetch_add(1, SeqCst);
+        let t0 = Instant::now();
+        while sh.leavers_ready.load(SeqCst) < sh.leavers_total && !sh.shutdown.load(SeqCst) {
+            std::hint::spin_loop();
+            if cfg!(miri) {
+                std::thread::yield_now();
+            }
+            if t0.elapsed() > Duration::from_millis(3) {
+                break;
+            }
+        }
+    }
     rx.drop_rx();
+    sh.receivers_alive.fetch_sub(1, SeqCst);
     sh.state[tid].store(DONE, SeqCst);
 }
 
@@ -464,6 +495,15 @@ pub fn run_once(cfg: &FutCfg, shard: &mut Shard) -> (u64, bool, bool) {
         for (si, mut head) in heads.into_iter().enumerate() {
             let cs = &cfg.streams[si];
             let mut hs = Vec::new();
+            if cfg.roundtrip[si] {
+                // conversion round trip before anybody else holds a handle of this stream
+                if let Some(true) = head.into_single() {
+                    if rng.chance(1, 2) {
+                        head.transform();
+                    }
+                    head.into_multi();
+                }
+            }
             for _ in 1..cs.len() {
                 hs.push(head.clone_rx().expect("clone"));
             }
@@ -493,6 +533,13 @@ pub fn run_once(cfg: &FutCfg, shard: &mut Shard) -> (u64, bool, bool) {
         progress_ops: AtomicU64::new(0),
         is_task: (0..MAXT).map(|_| AtomicBool::new(false)).collect(),
         pending: std::sync::Mutex::new(Vec::new()),
+        leavers_ready: AtomicU32::new(0),
+        leavers_total: if cfg.sync_drop {
+            cfg.streams.iter().map(|s| s.iter().filter(|c| matches!(c.0, StreamMode::PollDrop(_) | StreamMode::DirectDrop(_))).count() as u32).sum()
+        } else {
+            0
+        },
+        receivers_alive: AtomicU32::new(cfg.streams.iter().map(|s| s.len() as u32).sum()),
     });
     let mut joins = Vec::new();
     let mut tid = 1usize;
@@ -683,7 +730,25 @@ pub fn run_once(cfg: &FutCfg, shard: &mut Shard) -> (u64, bool, bool) {
             }
         }
         if !progressed {
-            // every parked task answered NotReady: nothing can make progress; the scenario is over
+            // every parked task answered NotReady. That is the end of the scenario - unless no receiver
+            // handle exists any more: then a parked sink must have been told (its send resolves to an
+            // error), whatever the queue itself believes about its streams.
+            if shared.receivers_alive.load(SeqCst) == 0 {
+                for t in 1..=nthreads {
+                    if shared.state[t].load(SeqCst) == PARKED && t <= cfg.sinks.len() {
+                        violation(
+                            "C14,C13",
+                            "parked-with-no-receivers",
+                            "parked-with-no-receivers:sink".to_string(),
+                            format!(
+                                "every receiver handle has been dropped, yet sink task T{} is still parked and a probe poll says NotReady: its send stays pending forever ({})",
+                                t,
+                                cfg.describe()
+                            ),
+                        );
+                    }
+                }
+            }
             break;
         }
         // a violation was recorded; let the scenario continue (the probed task moves on)
